@@ -21,8 +21,8 @@ func init() {
 			{name: "robust", run: "^TestPropRobust$", shards: 16, checks: 6000, timeout: 20 * time.Minute},
 		}},
 		thorough: tier{jobs: []job{
-			{name: "roundtrip", run: "^TestPropRoundTrip$", shards: 16, checks: 40000, timeout: 90 * time.Minute},
-			{name: "robust", run: "^TestPropRobust$", shards: 16, checks: 300000, timeout: 90 * time.Minute},
+			{name: "roundtrip", run: "^TestPropRoundTrip$", shards: 16, checks: 20000, timeout: 90 * time.Minute},
+			{name: "robust", run: "^TestPropRobust$", shards: 16, checks: 150000, timeout: 90 * time.Minute},
 			{name: "fuzz-decode", fuzz: "FuzzDecode", fuzzFor: 8 * time.Minute},
 		}},
 	})
